@@ -7,11 +7,11 @@ From Slock Require Import Engine.Types Engine.Queues Engine.Timers Engine.Engine
   Engine.InvLockDefs Engine.RunDsc.
 Open Scope N_scope.
 
-(* like fr0, except that record r may start to hold *)
+(* like fr0, except that record r may start to hold: at depth 1 *)
 Definition frx (r : ref) (s s' : db) : Prop :=
   forall r0 l', aget (store s') r0 = Some l' ->
     exists l, aget (store s) r0 = Some l /\ l_key l' = l_key l /\ l_cmd l' = l_cmd l
-              /\ (r0 <> r -> 0 < l_locked l' -> 0 < l_locked l).
+              /\ (l_locked l' <= l_locked l \/ (r0 = r /\ l_locked l' <= 1)).
 
 Lemma fr0_frx r s s' : fr0 s s' -> frx r s s'.
 Proof. intros H r0 l' G. destruct (H _ _ G) as (l & G1 & A & B & C). exists l. auto. Qed.
@@ -19,13 +19,13 @@ Proof. intros H r0 l' G. destruct (H _ _ G) as (l & G1 & A & B & C). exists l. a
 Lemma frx_fr0 r s x x' : frx r s x -> fr0 x x' -> frx r s x'.
 Proof.
   intros H1 H2 r0 l3 G3. destruct (H2 _ _ G3) as (l2 & G2 & A2 & B2 & C2). destruct (H1 _ _ G2) as (l1 & G1 & A1 & B1 & C1).
-  exists l1. repeat split; try congruence. auto.
+  exists l1. repeat split; try congruence. destruct C1 as [C1|[C1 C1']]; [left; lia|right; split; auto; lia].
 Qed.
 
 Lemma fr0_frx_l r s x x' : fr0 s x -> frx r x x' -> frx r s x'.
 Proof.
   intros H1 H2 r0 l3 G3. destruct (H2 _ _ G3) as (l2 & G2 & A2 & B2 & C2). destruct (H1 _ _ G2) as (l1 & G1 & A1 & B1 & C1).
-  exists l1. repeat split; try congruence. auto.
+  exists l1. repeat split; try congruence. destruct C2 as [C2|[C2 C2']]; [left; lia|right; split; auto].
 Qed.
 
 (* ---------------------------------------------------------------- AddLock *)
@@ -35,13 +35,13 @@ Proof.
   unfold add_lock. cbv zeta.
   assert (Hg : getl x r = l0) by (unfold getl; rewrite E0; reflexivity). rewrite Hg. clear Hg.
   match goal with |- context [setl x r ?lx] => set (l1 := lx) end.
-  assert (K1 : l_key l1 = l_key l0 /\ l_cmd l1 = l_cmd l0).
+  assert (K1 : l_key l1 = l_key l0 /\ l_cmd l1 = l_cmd l0 /\ l_locked l1 = 1).
   { subst l1. repeat match goal with |- context [if ?b then _ else _] => destruct b end; cbn; auto. }
   assert (F1 : frx r x (setl x r l1)).
   { intros r0 l' G. change (store (setl x r l1)) with (aset (store x) r l1) in G. rewrite aget_aset in G.
     destruct (r =? r0) eqn:E.
-    - apply N.eqb_eq in E. subst r0. inv G. exists l0. destruct K1. repeat split; auto. congruence.
-    - exists l'. repeat split; auto. }
+    - apply N.eqb_eq in E. subst r0. inv G. exists l0. destruct K1 as (K1 & K2 & K3). repeat split; auto. right. split; auto. lia.
+    - exists l'. repeat split; auto. left. lia. }
   clearbody l1.
   destruct (m_cur (getm x k)).
   - destruct (hq_push (setl x r l1) _ r) as [x2 q2] eqn:E2.
@@ -115,21 +115,22 @@ Qed.
 (* ---------------------------------------------------------------- Lock, the new-record tail *)
 Definition tail_dsc (s : db) (k : N) (c : cmd) (s' : db) : Prop :=
   forall r0 l', aget (store s') r0 = Some l' ->
-    (r0 = next s /\ l_key l' = k /\ l_cmd l' = c
+    (r0 = next s /\ l_key l' = k /\ l_cmd l' = c /\ l_locked l' <= 1
      /\ (0 < l_locked l' -> exists cc, do_lock_rule (m_locked (getm s k)) cc (c_count c) = true))
     \/ (r0 <> next s /\ exists l, aget (store s) r0 = Some l /\ same3 l l').
 
 Lemma tail_of_frx s k c x r s' :
-  r = next s -> l_key (getl x r) = k -> l_cmd (getl x r) = c -> aget (store x) r <> None ->
+  r = next s -> l_key (getl x r) = k -> l_cmd (getl x r) = c -> l_locked (getl x r) = 0 -> aget (store x) r <> None ->
   (forall r0, r0 <> r -> aget (store x) r0 = aget (store s) r0) ->
   (exists cc, do_lock_rule (m_locked (getm s k)) cc (c_count c) = true) ->
   frx r x s' -> tail_dsc s k c s'.
 Proof.
-  intros Hr Hk Hc Hp Ho Hrule F r0 l' G. destruct (F _ _ G) as (l & G1 & A & B & C).
+  intros Hr Hk Hc Hd Hp Ho Hrule F r0 l' G. destruct (F _ _ G) as (l & G1 & A & B & C).
   destruct (N.eq_dec r0 r) as [E|E].
-  - left. subst r0. unfold getl in Hk, Hc. rewrite G1 in Hk, Hc. subst r. repeat split; try congruence; auto.
+  - left. subst r0. unfold getl in Hk, Hc, Hd. rewrite G1 in Hk, Hc, Hd. subst r. repeat split; try congruence; auto.
+    destruct C as [C|[_ C]]; lia.
   - right. rewrite Hr in E. split; auto. exists l. rewrite <- Ho by (rewrite Hr; auto). split; auto.
-    unfold same3. repeat split; auto. apply C. rewrite Hr. auto.
+    unfold same3. repeat split; auto. destruct C as [C|[C _]]; [auto|]. rewrite Hr in C. congruence.
 Qed.
 
 Lemma tail_of_fr0 s k c x r s' :
@@ -139,8 +140,7 @@ Lemma tail_of_fr0 s k c x r s' :
 Proof.
   intros Hr Hk Hc Hd Ho F r0 l' G. destruct (F _ _ G) as (l & G1 & A & B & C).
   destruct (N.eq_dec r0 r) as [E|E].
-  - left. subst r0. unfold getl in Hk, Hc, Hd. rewrite G1 in Hk, Hc, Hd. subst r. repeat split; try congruence.
-    intros H. specialize (C H). lia.
+  - left. subst r0. unfold getl in Hk, Hc, Hd. rewrite G1 in Hk, Hc, Hd. subst r. repeat split; try congruence; try lia.
   - right. rewrite Hr in E. split; auto. exists l. rewrite <- Ho by (rewrite Hr; auto). split; auto.
     unfold same3. auto.
 Qed.
@@ -164,50 +164,61 @@ Proof.
 Qed.
 
 (* ---------------------------------------------------------------- Lock on a hold found by the lookup *)
-(* like fr0, except that record r may start to hold and its command may be replaced by one with Count n *)
-Definition frc (r : ref) (n : N) (s s' : db) : Prop :=
+(* like fr0, except that the command of record r may be replaced by one with Count n *)
+Definition fcm (r : ref) (n : N) (s s' : db) : Prop :=
+  forall r0 l', aget (store s') r0 = Some l' ->
+    exists l, aget (store s) r0 = Some l /\ l_key l' = l_key l /\ l_locked l' <= l_locked l
+              /\ (l_cmd l' = l_cmd l \/ (r0 = r /\ c_count (l_cmd l') = n)).
+
+(* ... and it may gain one level if its depth was at most p (and below 255) *)
+Definition frc (r : ref) (n p : N) (s s' : db) : Prop :=
   forall r0 l', aget (store s') r0 = Some l' ->
     exists l, aget (store s) r0 = Some l /\ l_key l' = l_key l
-              /\ (if r0 =? r then l_cmd l' = l_cmd l \/ c_count (l_cmd l') = n
-                  else l_cmd l' = l_cmd l /\ (0 < l_locked l' -> 0 < l_locked l)).
+              /\ (l_cmd l' = l_cmd l \/ (r0 = r /\ c_count (l_cmd l') = n))
+              /\ (l_locked l' <= l_locked l \/ (r0 = r /\ l_locked l' <= l_locked l + 1 /\ l_locked l <= p)).
 
-Lemma fr0_frc r n s s' : fr0 s s' -> frc r n s s'.
+Lemma fr0_fcm r n s s' : fr0 s s' -> fcm r n s s'.
+Proof. intros H r0 l' G. destruct (H _ _ G) as (l & G1 & A & B & C). exists l. auto. Qed.
+
+Lemma fcm_trans r n a b c : fcm r n a b -> fcm r n b c -> fcm r n a c.
 Proof.
-  intros H r0 l' G. destruct (H _ _ G) as (l & G1 & A & B & C). exists l. repeat split; auto.
-  destruct (r0 =? r); auto.
+  intros H1 H2 r0 l3 G3. destruct (H2 _ _ G3) as (l2 & G2 & A2 & B2 & C2). destruct (H1 _ _ G2) as (l1 & G1 & A1 & B1 & C1).
+  exists l1. repeat split; try congruence; try lia.
+  destruct C2 as [C2|C2]; auto. destruct C1 as [C1|[C1 C1']]; [left; congruence|right; split; auto; congruence].
 Qed.
 
-Lemma frc_trans r n a b c : frc r n a b -> frc r n b c -> frc r n a c.
+Lemma fcm_fr0 r n s x x' : fcm r n s x -> fr0 x x' -> fcm r n s x'.
+Proof. intros H1 H2. eapply fcm_trans; [exact H1|apply fr0_fcm; exact H2]. Qed.
+
+Lemma fcm_frc r n p s s' : fcm r n s s' -> frc r n p s s'.
+Proof. intros H r0 l' G. destruct (H _ _ G) as (l & G1 & A & B & C). exists l. auto. Qed.
+
+(* one level gained, then command changes *)
+Lemma frc_of_inc r n p s x s' :
+  (forall r0 l', aget (store x) r0 = Some l' ->
+     exists l, aget (store s) r0 = Some l /\ l_key l' = l_key l /\ l_cmd l' = l_cmd l
+               /\ (l_locked l' <= l_locked l \/ (r0 = r /\ l_locked l' <= l_locked l + 1 /\ l_locked l <= p))) ->
+  fcm r n x s' -> frc r n p s s'.
 Proof.
-  intros H1 H2 r0 l3 G3. destruct (H2 _ _ G3) as (l2 & G2 & A2 & B2). destruct (H1 _ _ G2) as (l1 & G1 & A1 & B1).
-  exists l1. repeat split; try congruence. destruct (r0 =? r).
-  - destruct B2 as [B2|B2]; auto. destruct B1 as [B1|B1]; [left; congruence|right; congruence].
-  - destruct B1, B2. split; [congruence|auto].
+  intros H1 H2 r0 l3 G3. destruct (H2 _ _ G3) as (l2 & G2 & A2 & B2 & C2). destruct (H1 _ _ G2) as (l1 & G1 & A1 & B1 & C1).
+  exists l1. split; [exact G1|]. split; [congruence|]. split.
+  - destruct C2 as [C2|C2]; [left; congruence|right; auto].
+  - destruct C1 as [C1|(C1 & C1' & C1'')]; [left; lia|right; repeat split; auto; lia].
 Qed.
 
-Lemma frc_fr0 r n s x x' : frc r n s x -> fr0 x x' -> frc r n s x'.
-Proof. intros H1 H2. eapply frc_trans; [exact H1|apply fr0_frc; exact H2]. Qed.
-
-Lemma frc_updl_r r n x f : (forall l, l_key (f l) = l_key l /\ l_cmd (f l) = l_cmd l) -> frc r n x (updl x r f).
-Proof.
-  intros Hf r0 l' G. rewrite aget_store_updl in G. destruct (r =? r0) eqn:E.
-  - apply N.eqb_eq in E. subst r0. destruct (aget (store x) r) as [l|]; [|discriminate]. cbn in G. inv G.
-    exists l. destruct (Hf l). rewrite N.eqb_refl. auto.
-  - exists l'. rewrite N.eqb_sym, E. auto.
-Qed.
-
-Lemma frc_update_locked_lock x k r c : aget (store x) r <> None -> frc r (c_count c) x (update_locked_lock x k r c).
+Lemma fcm_update_locked_lock x k r c : aget (store x) r <> None -> fcm r (c_count c) x (update_locked_lock x k r c).
 Proof.
   intros Hp. destruct (aget (store x) r) as [l0|] eqn:E0; [|congruence]. clear Hp.
   unfold update_locked_lock. cbv zeta.
   assert (Hg : getl x r = l0) by (unfold getl; rewrite E0; reflexivity). rewrite Hg. clear Hg.
-  match goal with |- frc _ _ _ (setl x r ?lx) => set (l1 := lx) end.
-  assert (K1 : l_key l1 = l_key l0 /\ l_cmd l1 = c).
+  match goal with |- fcm _ _ _ (setl x r ?lx) => set (l1 := lx) end.
+  assert (K1 : l_key l1 = l_key l0 /\ l_cmd l1 = c /\ l_locked l1 = l_locked l0).
   { subst l1. repeat match goal with |- context [if ?b then _ else _] => destruct b end; cbn; auto. }
   clearbody l1. intros r0 l' G. change (store (setl x r l1)) with (aset (store x) r l1) in G. rewrite aget_aset in G.
   destruct (r =? r0) eqn:E.
-  - apply N.eqb_eq in E. subst r0. inv G. exists l0. destruct K1 as [K1 K2]. rewrite N.eqb_refl. rewrite K2. auto.
-  - exists l'. rewrite N.eqb_sym, E. auto.
+  - apply N.eqb_eq in E. subst r0. inv G. exists l0. destruct K1 as (K1 & K2 & K3). repeat split; auto; [lia|].
+    right. rewrite K2. auto.
+  - exists l'. repeat split; auto. lia.
 Qed.
 
 Lemma present_update_locked_lock x k r c r' : aget (store x) r' <> None -> aget (store (update_locked_lock x k r c)) r' <> None.
@@ -217,12 +228,12 @@ Proof.
   rewrite aget_aset. destruct (r =? r'); [discriminate|auto].
 Qed.
 
-Lemma frc_update_and_rearm x k r c x' ev :
-  aget (store x) r <> None -> update_and_rearm x k r c = (x', ev) -> frc r (c_count c) x x'.
+Lemma fcm_update_and_rearm x k r c x' ev :
+  aget (store x) r <> None -> update_and_rearm x k r c = (x', ev) -> fcm r (c_count c) x x'.
 Proof.
-  intros Hp H. pose proof (frc_update_locked_lock x k r c Hp) as F. unfold update_and_rearm in H. cbv zeta in H.
+  intros Hp H. pose proof (fcm_update_locked_lock x k r c Hp) as F. unfold update_and_rearm in H. cbv zeta in H.
   repeat (split_hyp H); inv_tuple H; auto.
-  eapply frc_fr0; [exact F|]. frs.
+  eapply fcm_fr0; [exact F|]. frs.
 Qed.
 
 Lemma present_process_data x k r c b x' ev r' : process_data x k r c b = (x', ev) -> aget (store x) r' <> None -> aget (store x') r' <> None.
@@ -234,15 +245,24 @@ Qed.
 Lemma some_inj {A} (a b : A) : Some a = Some b -> a = b.
 Proof. intros H. inversion H. reflexivity. Qed.
 
-Lemma ls_relock_dsc s conn c1 k m r l ld s' ev w c' wt :
-  aget (store s) r <> None -> ls_relock s conn c1 k m r l ld = (Some (s', ev, w), c', wt) -> s' = s \/ frc r (c_count c1) s s'.
+Lemma add8_le d : add8 d 1 <= d + 1.
+Proof. unfold add8. apply N.mod_le. lia. Qed.
+
+Lemma ls_relock_dsc s conn c1 k m r l ld s' ev w c' wt p :
+  aget (store s) r <> None -> l_locked (getl s r) <= p ->
+  ls_relock s conn c1 k m r l ld = (Some (s', ev, w), c', wt) -> s' = s \/ frc r (c_count c1) p s s'.
 Proof.
-  intros Hp H. unfold ls_relock in H.
+  intros Hp Hg H. unfold ls_relock in H.
   destruct (c_expried c1 =? 0); [apply tuple3_inv in H; destruct H as (H & _ & _); inv H; auto|].
   right. cbv zeta in H.
   set (x1 := updl (updm s k (fun m => m <| m_locked := add32 (m_locked m) 1 |>)) r (fun l => l <| l_locked := add8 (l_locked l) 1 |>)) in *.
-  assert (F1 : frc r (c_count c1) s x1).
-  { subst x1. eapply frc_trans; [apply fr0_frc; apply fr0_updm, fr0_refl|]. apply frc_updl_r. intros l0. cbn. auto. }
+  assert (F1 : forall r0 l', aget (store x1) r0 = Some l' ->
+     exists l, aget (store s) r0 = Some l /\ l_key l' = l_key l /\ l_cmd l' = l_cmd l
+               /\ (l_locked l' <= l_locked l \/ (r0 = r /\ l_locked l' <= l_locked l + 1 /\ l_locked l <= p))).
+  { subst x1. intros r0 l' G. rewrite aget_store_updl, store_updm in G. destruct (r =? r0) eqn:E.
+    - apply N.eqb_eq in E. subst r0. destruct (aget (store s) r) as [l0|] eqn:E0; [|discriminate]. cbn in G. inv G.
+      exists l0. cbn. repeat split; auto. right. unfold getl in Hg. rewrite E0 in Hg. repeat split; auto. apply add8_le.
+    - exists l'. repeat split; auto. left. lia. }
   assert (P1 : aget (store x1) r <> None) by (subst x1; apply present_updl, present_updm; auto).
   clearbody x1.
   destruct (if has_data_flag c1 then process_data x1 k r c1 false else (x1, [])) as [x2 pev] eqn:E2.
@@ -251,15 +271,15 @@ Proof.
     split; [eapply fr0_process_data; [exact E2|apply fr0_refl]|eapply present_process_data; eauto]. }
   destruct F2 as [F2 P2].
   destruct (update_and_rearm x2 k r c1) as [x3 aev] eqn:E3.
-  pose proof (frc_update_and_rearm _ _ _ _ _ _ P2 E3) as F3.
-  assert (F : frc r (c_count c1) s x3).
-  { eapply frc_trans; [|exact F3]. eapply frc_fr0; eauto. }
+  pose proof (fcm_update_and_rearm _ _ _ _ _ _ P2 E3) as F3.
+  assert (F : fcm r (c_count c1) x1 x3) by (eapply fcm_trans; [apply fr0_fcm; exact F2|exact F3]).
+  eapply frc_of_inc; [exact F1|].
   repeat (split_hyp H); apply tuple3_inv in H; destruct H as (H & _ & _); apply some_inj in H; inv_tuple H.
-  all: eapply frc_fr0; [exact F|]; frs.
+  all: eapply fcm_fr0; [exact F|]; frs.
 Qed.
 
 Lemma ls_update_dsc s conn c1 k m r l ld s' ev w c' wt :
-  aget (store s) r <> None -> ls_update s conn c1 k m r l ld = (Some (s', ev, w), c', wt) -> frc r (c_count c1) s s'.
+  aget (store s) r <> None -> ls_update s conn c1 k m r l ld = (Some (s', ev, w), c', wt) -> fcm r (c_count c1) s s'.
 Proof.
   intros Hp H. unfold ls_update in H.
   assert (TAIL : forall x1 pev eqx,
@@ -278,15 +298,15 @@ Proof.
          let '(s3, e3) := if negb from_aof && l_isaof (getl s2 r) then push_lock_aof s2 k r AOF_FLAG_UPDATED else (s2, []) in
          (Some (s3, pev ++ aev ++ e3 ++ [reply conn c1 R_LOCKED_ERROR (m_locked (getm s3 k)) (l_locked (getl s3 r)) ld],
                 Some (mkWake k (Some conn))), c1, m_waited m)) = (Some (s', ev, w), c', wt) ->
-    frc r (c_count c1) s s').
+    fcm r (c_count c1) s s').
   { intros x1 pev eqx F1 P1 H1. destruct eqx.
-    - apply tuple3_inv in H1. destruct H1 as (H1 & _ & _). apply some_inj in H1. inv_tuple H1. apply fr0_frc. exact F1.
+    - apply tuple3_inv in H1. destruct H1 as (H1 & _ & _). apply some_inj in H1. inv_tuple H1. apply fr0_fcm. exact F1.
     - destruct (update_and_rearm x1 k r c1) as [x3 aev] eqn:E3.
-      pose proof (frc_update_and_rearm _ _ _ _ _ _ P1 E3) as F3.
-      assert (F : frc r (c_count c1) s x3) by (eapply frc_trans; [apply fr0_frc; exact F1|exact F3]).
+      pose proof (fcm_update_and_rearm _ _ _ _ _ _ P1 E3) as F3.
+      assert (F : fcm r (c_count c1) s x3) by (eapply fcm_trans; [apply fr0_fcm; exact F1|exact F3]).
       cbv zeta in H1.
       repeat (split_hyp H1); apply tuple3_inv in H1; destruct H1 as (H1 & _ & _); apply some_inj in H1; inv_tuple H1.
-      all: eapply frc_fr0; [exact F|]; frs. }
+      all: eapply fcm_fr0; [exact F|]; frs. }
   destruct (has_data_flag c1).
   - destruct (process_data s k r c1 false) as [y pv] eqn:Ep. cbv beta iota zeta in H.
     eapply TAIL; [| |exact H].
@@ -299,7 +319,7 @@ Qed.
 Lemma ls_held_dsc s conn c k m s' ev w c' wt :
   ((0 <? m_locked m) = true -> forall id r, get_locked_lock s m id = Some r -> aget (store s) r <> None) ->
   ls_held s conn c k m = (Some (s', ev, w), c', wt) ->
-  s' = s \/ ((0 <? m_locked m) = true /\ exists id r, get_locked_lock s m id = Some r /\ frc r (c_count c) s s').
+  s' = s \/ ((0 <? m_locked m) = true /\ exists id r, get_locked_lock s m id = Some r /\ frc r (c_count c) (c_rcount c) s s').
 Proof.
   intros Hlk H. rewrite ls_held_eq in H.
   destruct (0 <? m_locked m) eqn:E0.
@@ -308,8 +328,8 @@ Proof.
   specialize (Hlk eq_refl). cbv zeta in H.
   match type of H with context [if has (c_flag c) LOCK_FLAG_SHOW then ?a else c] =>
     set (c1 := if has (c_flag c) LOCK_FLAG_SHOW then a else c) in H end.
-  assert (Hc1 : c_count c1 = c_count c) by (subst c1; destruct (has (c_flag c) LOCK_FLAG_SHOW); reflexivity).
-  clearbody c1.
+  assert (Hc1 : c_count c1 = c_count c /\ c_rcount c1 = c_rcount c) by (subst c1; destruct (has (c_flag c) LOCK_FLAG_SHOW); split; reflexivity).
+  clearbody c1. destruct Hc1 as [Hc1 Hrc1].
   destruct (has (c_flag c) LOCK_FLAG_SHOW && negb (has (c_flag c) LOCK_FLAG_UPDATE)).
   { apply tuple3_inv in H. destruct H as (H & _ & _). apply some_inj in H. inv_tuple H. auto. }
   destruct (get_locked_lock s m (c_lockid c1)) as [r|] eqn:Eg; [|apply tuple3_inv in H; destruct H as (H & _ & _); discriminate H].
@@ -317,10 +337,11 @@ Proof.
   destruct (negb (l_ack (getl s r) =? 255)).
   { apply tuple3_inv in H. destruct H as (H & _ & _). apply some_inj in H. inv_tuple H. auto. }
   destruct (has (c_flag c1) LOCK_FLAG_UPDATE).
-  - right. split; auto. exists (c_lockid c1), r. split; auto. rewrite <- Hc1. eapply ls_update_dsc; eauto.
-  - match type of H with (if ?g then _ else _) = _ => destruct g end.
-    + destruct (ls_relock_dsc _ _ _ _ _ _ _ _ _ _ _ _ _ Hp H) as [->|F]; auto.
-      right. split; auto. exists (c_lockid c1), r. split; auto. rewrite <- Hc1. exact F.
+  - right. split; auto. exists (c_lockid c1), r. split; auto. rewrite <- Hc1. apply fcm_frc. eapply ls_update_dsc; eauto.
+  - match type of H with (if ?g then _ else _) = _ => destruct g eqn:Eg2 end.
+    + apply andb_prop in Eg2. destruct Eg2 as [Eg2 _]. apply andb_prop in Eg2. destruct Eg2 as [_ Eg2]. apply N.leb_le in Eg2.
+      destruct (ls_relock_dsc _ _ _ _ _ _ _ _ _ _ _ _ _ (c_rcount c1) Hp Eg2 H) as [->|F]; auto.
+      right. split; auto. exists (c_lockid c1), r. split; auto. rewrite <- Hc1, <- Hrc1. exact F.
     + apply tuple3_inv in H. destruct H as (H & _ & _). apply some_inj in H. inv_tuple H. auto.
 Qed.
 
@@ -341,12 +362,13 @@ Proof.
 Qed.
 
 (* what Lock does to the lock records: (1) nothing starts to hold and no command changes; or (2) the hold r found by the
-   lookup on the request's key is re-entered / updated: its command may be replaced by one with the request's Count;
+   lookup on the request's key is re-entered / updated: its command may be replaced by one with the request's Count,
+   it may gain one level if its depth was at most the request's Rcount;
    or (3) the new record `next s` is created for the request's key with the request's Count, and it holds something
    afterwards only if doLock accepted it against the key's `locked` counter of the pre-state *)
 Definition lock_dsc (s : db) (c : cmd) (s' : db) : Prop :=
   fr0 s s'
-  \/ (exists m id r, aget (mgrs s) (c_key c) = Some m /\ get_locked_lock s m id = Some r /\ frc r (c_count c) s s')
+  \/ (exists m id r, aget (mgrs s) (c_key c) = Some m /\ get_locked_lock s m id = Some r /\ frc r (c_count c) (c_rcount c) s s')
   \/ (exists c1, c_count c1 = c_count c /\ tail_dsc s (c_key c) c1 s').
 
 Lemma lock_step_dsc s conn c s' ev w :
